@@ -28,47 +28,82 @@ func Count(v reflect.Value) int {
 }
 
 // Distinct returns the values passed in with any duplicates removed.
+// Values are compared as JSON values: numbers, strings and booleans by
+// value, arrays and objects by their contents. A value that is not an
+// array is returned unchanged.
 func Distinct(v reflect.Value) interface{} {
 	v = jtypes.Resolve(v)
 
+	if !v.IsValid() || !v.CanInterface() {
+		return nil
+	}
+
 	// To match the behavior of jsonata-js, if this is a string we should
 	// return the entire string and not dedupe the individual characters
-	if jtypes.IsString(v) {
-		return v.String()
+	if !jtypes.IsArray(v) {
+		return v.Interface()
 	}
 
-	if jtypes.IsArray(v) {
-		items := arrayify(v)
-		visited := make(map[interface{}]struct{})
-		distinctValues := reflect.MakeSlice(reflect.SliceOf(typeInterface), 0, 0)
+	items := arrayify(v)
+	visited := make(map[interface{}]struct{})
+	distinctValues := reflect.MakeSlice(reflect.SliceOf(typeInterface), 0, 0)
 
-		for i := 0; i < items.Len(); i++ {
-			item := jtypes.Resolve(items.Index(i))
+	for i := 0; i < items.Len(); i++ {
+		item := items.Index(i)
 
-			if jtypes.IsMap(item) {
-				// We can't hash a map, so convert it to a
-				// string that is hashable
-				mapItem := fmt.Sprint(item.Interface())
-				if _, ok := visited[mapItem]; ok {
-					continue
-				}
-				visited[mapItem] = struct{}{}
-				distinctValues = reflect.Append(distinctValues, item)
-
-				continue
-			}
-
-			if _, ok := visited[item.Interface()]; ok {
-				continue
-			}
-
-			visited[item.Interface()] = struct{}{}
-			distinctValues = reflect.Append(distinctValues, item)
+		key := distinctKey(item)
+		if _, ok := visited[key]; ok {
+			continue
 		}
-		return distinctValues.Interface()
+
+		visited[key] = struct{}{}
+		if !jtypes.IsCallable(item) {
+			item = jtypes.Resolve(item)
+		}
+		distinctValues = reflect.Append(distinctValues, item)
 	}
 
-	return nil
+	return distinctValues.Interface()
+}
+
+// distinctContainer is the map key used by Distinct for arrays and
+// objects, which are not hashable themselves: their JSON text (object
+// keys sorted) tagged with the kind, so that it cannot collide with a
+// string holding the same text.
+type distinctContainer struct {
+	kind reflect.Kind
+	json string
+}
+
+func distinctKey(v reflect.Value) interface{} {
+	// Functions are compared by identity. Callables are pointer
+	// types: unwrap the interface but keep the pointer.
+	if jtypes.IsCallable(v) {
+		for v.Kind() == reflect.Interface && !v.IsNil() {
+			v = v.Elem()
+		}
+		if v.Kind() == reflect.Ptr {
+			return v.Pointer()
+		}
+	}
+
+	v = jtypes.Resolve(v)
+
+	if n, ok := jtypes.AsNumber(v); ok {
+		return n
+	}
+
+	if jtypes.IsArray(v) || jtypes.IsMap(v) {
+		if s, err := String(v.Interface()); err == nil {
+			return distinctContainer{kind: v.Kind(), json: s}
+		}
+	}
+
+	if !v.IsValid() || !v.CanInterface() || !v.Type().Comparable() {
+		return nil
+	}
+
+	return v.Interface()
 }
 
 // Append (golint)
